@@ -25,6 +25,15 @@ import (
 // at any time) and models the executions in which the pools were empty; with it the
 // detector sees only the code's own synchronisation and its verdict is a deterministic
 // function of the schedule. Nothing else of the standard library is changed.
+//
+// One pool is exempt: the pool the harness names with sync.VerifKeepPool (the gin router's pool
+// of *gin.Context). Use of a pooled context after its handler has returned is a realistic defect
+// (a goroutine of request A still reads c.Request while the router re-initialises the same
+// object for request B) that can only show when the object really is handed on. For that one
+// pool Put keeps the object in a LIFO list (deterministic, unlike the per-P lists of the real
+// Pool) with the same happens-before edge the real race-enabled Pool makes (ReleaseMerge on Put,
+// Acquire on Get, on the object's own address): everything the handler goroutine of A did
+// is ordered before B, as in reality; what A's other goroutines do later is not.
 func (b *build) overlayNoPoolReuse(overlay map[string]string) error {
 	cmd := exec.Command(goBin, "env", "GOROOT")
 	cmd.Env = goEnv()
@@ -42,7 +51,14 @@ func (b *build) overlayNoPoolReuse(overlay map[string]string) error {
 		fmt.Fprintf(&b.log, "note: %s does not have the expected shape; sync.Pool left as it is (race oracle less sensitive)\n", src)
 		return nil
 	}
-	data = bytes.Replace(data, []byte(old), []byte("if true || runtime_randn(4) == 0 { // verif: never retain (see cmd/verifctl/racepool.go)"), 1)
+	data = bytes.Replace(data, []byte(old), []byte("if verifKeep(p, x) {\n\t\t\treturn\n\t\t}\n\t\tif true || runtime_randn(4) == 0 { // verif: never retain (see cmd/verifctl/racepool.go)"), 1)
+	const oldGet = "func (p *Pool) Get() any {\n\tif race.Enabled {\n"
+	if bytes.Count(data, []byte(oldGet)) != 1 {
+		fmt.Fprintf(&b.log, "note: %s does not have the expected shape; sync.Pool left as it is (race oracle less sensitive)\n", src)
+		return nil
+	}
+	data = bytes.Replace(data, []byte(oldGet), []byte("func (p *Pool) Get() any {\n\tif race.Enabled {\n\t\tif x, ok := verifTake(p); ok {\n\t\t\treturn x\n\t\t}\n"), 1)
+	data = append(data, []byte(verifPoolExtra)...)
 	dir := filepath.Join(b.scratch, "std")
 	if err := os.MkdirAll(dir, 0o755); err != nil {
 		return err
@@ -52,6 +68,97 @@ func (b *build) overlayNoPoolReuse(overlay map[string]string) error {
 		return err
 	}
 	overlay[src] = dst
-	b.instr = append(b.instr, "std: sync/pool.go overlaid so that Pool.Put never retains (race build only)")
+	b.instr = append(b.instr, "std: sync/pool.go overlaid so that Pool.Put never retains, except the pool named by the harness (the router's pool of request contexts), which keeps objects in a LIFO list with the real Pool's happens-before edge (race build only)")
 	return nil
 }
+
+// verifPoolExtra is appended to the overlaid sync/pool.go (race builds only).
+const verifPoolExtra = `
+
+// ---- verif (cmd/verifctl/racepool.go) ----
+
+// VerifKeepPool names the one Pool that retains objects in this build.
+var VerifKeepPool atomic.Pointer[Pool]
+
+// The helpers are not instrumented (go:norace) and use no runtime helper that reports
+// accesses on behalf of its caller (no append, no map): the race detector sees nothing of
+// this bookkeeping but the two explicit happens-before calls.
+var (
+	verifKeepLock  atomic.Int32
+	verifKeepItems [512]any
+	verifKeepN     int
+)
+
+// verifRaceAddr: the object itself is the synchronisation address (the real Pool hashes the
+// address into 128 buckets, which makes unrelated objects share an edge now and then, at the
+// mercy of the allocator: not a function of the schedule).
+//
+//go:norace
+func verifRaceAddr(x any) unsafe.Pointer {
+	return (*[2]unsafe.Pointer)(unsafe.Pointer(&x))[1]
+}
+
+//go:norace
+func verifKeepLockAcquire() {
+	for !verifKeepLock.CompareAndSwap(0, 1) {
+		runtime.Gosched()
+	}
+}
+
+// VerifKeepReset names the pool to keep (nil: none) and forgets what was kept.
+//
+//go:norace
+func VerifKeepReset(p *Pool) {
+	race.Disable()
+	verifKeepLockAcquire()
+	for i := 0; i < verifKeepN; i++ {
+		verifKeepItems[i] = nil
+	}
+	verifKeepN = 0
+	VerifKeepPool.Store(p)
+	verifKeepLock.Store(0)
+	race.Enable()
+}
+
+//go:norace
+func verifKeep(p *Pool, x any) bool {
+	if p == nil || VerifKeepPool.Load() != p {
+		return false
+	}
+	race.ReleaseMerge(verifRaceAddr(x))
+	race.Disable()
+	verifKeepLockAcquire()
+	if verifKeepN < len(verifKeepItems) {
+		verifKeepItems[verifKeepN] = x
+		verifKeepN++
+	}
+	verifKeepLock.Store(0)
+	race.Enable()
+	return true
+}
+
+//go:norace
+func verifTake(p *Pool) (any, bool) {
+	if p == nil || VerifKeepPool.Load() != p {
+		return nil, false
+	}
+	race.Disable()
+	verifKeepLockAcquire()
+	var x any
+	if verifKeepN > 0 {
+		verifKeepN--
+		x = verifKeepItems[verifKeepN]
+		verifKeepItems[verifKeepN] = nil
+	}
+	verifKeepLock.Store(0)
+	race.Enable()
+	if x != nil {
+		race.Acquire(verifRaceAddr(x))
+		return x, true
+	}
+	if p.New != nil {
+		return p.New(), true
+	}
+	return nil, true
+}
+`
